@@ -185,21 +185,26 @@ def edge_templates():
     return out[:MONITOR_ONLY] + tail, mon
 
 
-def fragment_types(res, rnd, n, broken_model):
+def fragment_types(res, rnd, n, broken_model, functions=False):
     """the checker model (SslModel.Model.Check, what Thm/C01Eval is about) against the implementation: programs of the
     first-order fragment over opaque free variables; same verdict (typed / rejected) and, when typed, the same static type"""
     from gen import fragment as FR
     from vlib import driver_run
-    g = FR.Gen(rnd)
-    bodies = [g.program(rnd.choice([1, 2, 2, 3])) for _ in range(n // 4)] + \
-        [g.typed_program(rnd.choice([1, 2, 3, 3]), rnd.choice([0.0, 0.05, 0.15])) for _ in range(n - n // 4)]
+    label = "fragment-fn" if functions else "fragment"
+    if functions:
+        g = FR.GenF(rnd)
+        bodies = [g.fprogram(rnd.choice([1, 2, 3, 3]), rnd.choice([0.0, 0.05, 0.12])) for _ in range(n)]
+    else:
+        g = FR.Gen(rnd)
+        bodies = [g.program(rnd.choice([1, 2, 2, 3])) for _ in range(n // 4)] + \
+            [g.typed_program(rnd.choice([1, 2, 3, 3]), rnd.choice([0.0, 0.05, 0.15])) for _ in range(n - n // 4)]
     pre = FR.prelude()
     impl = harness_run(["prog\t\t" + esc_field(A.program_src(pre + b)) for b in bodies])
     if broken_model:
-        res.streams["fragment-types"] = dict(programs=n, compared=0)
+        res.streams[label + "-types"] = dict(programs=n, compared=0)
         return
     binds = " ".join("(%s %s)" % (nm, T.canon(t)) for nm, t, _ in FR.FREE)
-    model = driver_run(["tyof (%s) %s" % (binds, A.program_sexp(b)) for b in bodies])
+    model = driver_run(["%s (%s) %s" % ("tyoff" if functions else "tyof", binds, A.program_sexp(b)) for b in bodies])
     rel, relmeta = [], []
     stats = dict(ok=0, ill=0, unsup=0)
     for b, il, ml in zip(bodies, impl, model):
@@ -212,12 +217,12 @@ def fragment_types(res, rnd, n, broken_model):
             res.disagreements_checked += 1
             continue
         stats[verdict] += 1
-        res.count("fragment:" + verdict)
+        res.count(label + ":" + verdict)
         if verdict != "unsup":
             if "match " in src:
-                res.count("fragment:%s:with-match" % verdict)
+                res.count("%s:%s:with-match" % (label, verdict))
             if re.search(r"if \w+: ", src):
-                res.count("fragment:%s:with-if-set" % verdict)
+                res.count("%s:%s:with-if-set" % (label, verdict))
         if verdict == "unsup":
             continue
         accepted = isinstance(si, list) and si and si[0] == "accepted"
@@ -243,12 +248,13 @@ def fragment_types(res, rnd, n, broken_model):
         else:
             res.disagreements_checked += 1
             res.broken.append("correspondence:static type of `%s`: implementation %s, checker model %s" % (src[:300], ti[:120], tm[:120]))
-    res.streams["fragment-types"] = dict(programs=n, **stats)
+    res.streams[label + "-types"] = dict(programs=n, **stats)
 
 
 def run(res, tier, seed, broken_model):
     rnd = random.Random(seed)
     fragment_types(res, random.Random(seed + 3), 1500 if tier == "quick" else 40000, broken_model)
+    fragment_types(res, random.Random(seed + 4), 1000 if tier == "quick" else 30000, broken_model, functions=True)
     spec_t, mon_t = edge_templates()
     erecs = P.run_programs(spec_t, broken_model=broken_model)
     mrecs = P.run_programs(mon_t, broken_model=True)
